@@ -128,6 +128,13 @@ func iteratorWriteBackRule(r *Run, rule string, names map[string]bool) {
 				}
 			}
 		}
+		// the decode target is declared inside the loop: gogoproto's Unmarshal does not reset its target, so a
+		// struct reused across iterations keeps the previous element's values in fields the next one leaves unset
+		if elem != nil {
+			lp := v.innermostLoop(cbCall)
+			fresh := lp != nil && elem.Pos() > lp.Pos() && elem.Pos() < lp.End()
+			r.check(fresh, rule, "iterator-fresh-element|"+v.ID(), v.pos(cbCall), "each element is decoded into a fresh value", v.ID()+" decodes every record into one variable declared outside the loop: zero-valued fields of a record keep the previous record's values (and are written back)")
+		}
 		r.check(okCond && okVal && okKey, rule, key, v.pos(setCall), "a modified element is always written back (under its own key) when isUpdate is set and the callback succeeded", describeWB(v, okCond, okVal, okKey, extra))
 	}
 	if n == 0 {
